@@ -82,6 +82,41 @@ pub fn run(run: &mut Run, seed: u64, thorough: bool, replay: Option<&str>, corpu
         let bs = rng.bytes(n);
         one(run, &bs);
     }
+    // the same bytes at every start address modulo 16 (a fast path that peels bytes up to an aligned address, or reads
+    // words, behaves differently on an unaligned slice; a freshly allocated Vec is always aligned)
+    {
+        let pool = rng.bytes(16 + 160 + 16);
+        for &len in &[0usize, 1, 15, 16, 17, 31, 32, 33, 47, 48, 49, 64, 100, 160] {
+            for o in 0..16usize {
+                one(run, &pool[o..o + len]);
+                run.count(&format!("addr%16={}", (pool[o..].as_ptr() as usize) % 16));
+            }
+        }
+    }
+    // oracle, exhaustive in both tiers: all 2^16 two-byte strings (every index of a word-at-a-time table is reached from the
+    // initial register) and all 2^16 two-byte tails behind a fixed 16-byte block, against the bitwise definition
+    {
+        let mut reported = 0;
+        let mut long = vec![0x5Au8; 18];
+        for a in 0..=255u8 {
+            for b in 0..=255u8 {
+                let bs = [a, b];
+                long[16] = a;
+                long[17] = b;
+                let bad = get_crc16(&bs) != bit16(&bs) || get_crc32(&bs) != bit32(&bs);
+                let bad_long = get_crc16(&long) != bit16(&long) || get_crc32(&long) != bit32(&long);
+                if bad && reported < 4 {
+                    reported += 1;
+                    one(run, &bs);
+                }
+                if bad_long && reported < 4 {
+                    reported += 1;
+                    one(run, &long.clone());
+                }
+            }
+        }
+        run.count("two-byte strings (oracle only, exhaustive)");
+    }
     // two-byte strings: all 2^16 in thorough, a seeded 2048 in quick
     if thorough {
         for a in 0..=255u8 {
